@@ -121,6 +121,16 @@ CHECKS["C05"] = (
     "DESIGN.md section 6, C05",
 )
 
+CHECKS["C06"] = (
+    "enumeration of all IANA (zone, UTC-offset change) pairs 2000-2037 + Hypothesis-generated spans; UTC-arithmetic row oracle and day-separability relation",
+    "Every (zone, transition) pair of pytz 2000-2037 (17k) is driven through the hourly clock-normalisation step with a slot-identifier "
+    "vector; HourlyModel.predict is driven through the public API for one pair per (zone, signature) in quick and for all pairs in "
+    "thorough (rows = real hours of the local days, finite, neighbouring days equal to the day predicted alone); generated spans for "
+    "hourly, daily and billing models (any start/end hour, gaps, with/without usage, 18 zones) check row identity and the finiteness pattern.",
+    "Trusted: pytz transition tables, span_index (UTC arithmetic). Known findings: 2- and 3-hour shifts (listed by signature).",
+    "DESIGN.md section 6, C06",
+)
+
 PENDING_REASON = "check not built yet in this session (work in progress; property-based testing applies and is planned, see DESIGN.md section 6)"
 
 
